@@ -1,6 +1,7 @@
 import Driver.Util
 import PsVerif.Model.Cipher
 import PsVerif.Model.T1Encode
+import Driver.Canon
 /-!
 `psdriver`: reads one case per line from stdin, prints the model's canonical result
 line for each.  A line the driver cannot parse gives `bad-op` (never a default).
@@ -20,6 +21,12 @@ def parseCmd (s : String) : Option T1Encode.Cmd :=
 def toU8 (bs : List Nat) : List UInt8 := bs.map (fun b => UInt8.ofNat b)
 def ofU8 (bs : List UInt8) : List Nat := bs.map (fun b => b.toNat)
 
+/-- fuel: enough for every run that the budget `m` allows (each unit of fuel is one Go call,
+tail-loop turn, loop turn or token; all of them are bounded by tokens + a multiple of the
+operation budget); without a budget a large constant. -/
+def fuelFor (m : Nat) (len : Nat) : Nat :=
+  if m == 0 then 20000000 else 40 * (m + len) + 100000
+
 def handle (line : String) : String :=
   match line.splitOn " " with
   | ["enc", wx, wy, hs, vs, cmds] =>
@@ -33,6 +40,14 @@ def handle (line : String) : String :=
     match parseRat x with
     | some r => let a := T1Encode.appendNumber r; hexOfBytes a.1 ++ " " ++ ratStr a.2
     | none => "bad-op"
+  | ["run", maxOps, checkStart, prog] =>
+    -- one Execute call on a fresh interpreter
+    match maxOps.toNat?, bytesOfHex prog with
+    | some m, some bs =>
+      let s0 := { newInterpreter with maxOps := m, checkStart := checkStart == "1" }
+      let (s1, r) := execute (fuelFor m bs.length) s0 (toU8 bs) none
+      Driver.Canon.render s1 r
+    | _, _ => "bad-op"
   | ["eexecdec", r, h] =>
     match r.toNat?, bytesOfHex h with
     | some r, some bs => hexOfBytes (ofU8 (Cipher.decrypt (UInt16.ofNat r) (toU8 bs)))
